@@ -2,7 +2,8 @@
 # re-evaluates every sub-agent change kept under seeded/<ID>/ against the check of its property (on scratch copies; see try_seed.sh)
 cd "$(dirname "$0")/.." || exit 1
 for d in seeded/*/; do
-  P=$(basename "$d")
-  echo "=== $P"
-  timeout 3000 selftest/try_seed.sh "/verif/seeded/$P" "$P"
+  D=$(basename "$d")
+  P=$(echo "$D" | sed 's/[a-z]*$//')       # seeded/C09b is a second change for C09
+  echo "=== $D"
+  timeout 3000 selftest/try_seed.sh "/verif/seeded/$D" "$P"
 done
